@@ -1,7 +1,7 @@
 # bin/check configuration of property C13 (a single dict expression)
 {'harness': 'c13',
  'props': 'Props/C13.v',
- 'models': ['Model/Pipeline.v', 'Model/Eval.v'],
+ 'models': ['Model/Pipeline.v', 'Model/Eval.v', 'Model/Heap.v', 'Model/Js.v'],
  'trusted': ['evaluator (ParseNode), json.Marshal, MD5/UUIDv3 and idr.JSONify2-encoding enter the theorems '
              'as Section variables; the node ID allocator (counter, sync.Pool as arbitrary-choice schedule, '
              'recycle) is modelled and its uniqueness invariant proved'],
@@ -19,4 +19,14 @@
                  'with the C02 evaluator (Proofs/PipelineC02.v: *_c02 theorems) the evaluator hypotheses '
                  'eval_cache_transparent / eval_id_renaming / eval_caches_sound are discharged; what remains '
                  'assumed there is query_valid (the xpath engine returns nodes of the tree it runs on) and '
-                 'determinism of engine, externals and custom functions']}
+                 'determinism of engine, externals and custom functions',
+                 'allocator bridge (Proofs/PipelineHeap.v): Model/Pipeline.v alloc is the abstraction '
+                 'abs_alloc of the C12 heap machine (create / recycle simulate create_node / release; '
+                 'reachable => AInv), so Inv is discharged for every C12-reachable state '
+                 '(caches_invisible_c02_heap has no hidden-state and no evaluator hypothesis)',
+                 'JavaScript composition (Proofs/PipelineJs.v, caches_invisible_js): evaluator-side caches = '
+                 'C20 jsstate; eval_caches_sound / CInv_mono / memo transparency / ID renaming discharged '
+                 'from C20 js_call_spec and C02 (plus oracle extensionality of the C02 evaluator, '
+                 'Proofs/PipelineEvalExt.v); modelling variables left: jscalls (the JavaScript calls a '
+                 'record issues, with jscalls_wf / jscalls_stable = the F6 guard at pipeline level), js_of / '
+                 'matches / cf_of (invocation -> call -> Go value)']}
